@@ -276,9 +276,10 @@ func (e *kvElection) handleReconnect() {
 		e.logWithContext(e.context())...,
 	)
 
-	e.wg.Add(1)
+	wg := e.wg
+	wg.Add(1)
 	go func() {
-		defer e.wg.Done()
+		defer wg.Done()
 		e.verifyLeadershipAfterReconnect()
 	}()
 }
